@@ -313,6 +313,15 @@ func walkTop(b []byte) []topBox {
 	pos := 0
 	for pos+8 <= len(b) {
 		sz := int(uint32(b[pos])<<24 | uint32(b[pos+1])<<16 | uint32(b[pos+2])<<8 | uint32(b[pos+3]))
+		if sz == 1 && pos+16 <= len(b) { // 64-bit size follows the type
+			sz = 0
+			for _, x := range b[pos+8 : pos+16] {
+				sz = sz<<8 | int(x)
+			}
+			if sz < 16 {
+				break
+			}
+		}
 		if sz < 8 || pos+sz > len(b) {
 			break
 		}
